@@ -14,10 +14,11 @@ def InRange32 (n : Int) : Prop := -2147483648 ≤ n ∧ n ≤ 2147483647
 
 instance (n : Int) : Decidable (InRange32 n) := by unfold InRange32; infer_instance
 
-/-- A value a custom scalar's OWN parser produced — from some non-null JSON value (`parse`) or from some scalar literal
-    (`parse_literal`): "the scalar accepted it". Nothing else is known, or needs to be known, about a custom scalar. -/
+/-- A value a custom scalar's OWN parser produced — from some non-null JSON value (`parse`) or from some literal that
+    `value_from_ast` hands it (`litAdmitted`: scalar literals; any literal if the scalar has its own `parse_literal`):
+    "the scalar accepted it". Nothing else is known, or needs to be known, about a custom scalar. -/
 def CustomOK (reg : Reg) (n : String) (pv : PV) : Prop :=
-  (∃ v, v.isNull = false ∧ reg.customParse n v = .value pv) ∨ (∃ l, isScalarLit l = true ∧ reg.customParseLiteral n l = .value pv)
+  (∃ v, v.isNull = false ∧ reg.customParse n v = .value pv) ∨ (∃ l, litAdmitted reg n l = true ∧ reg.customParseLiteral n l = .value pv)
 
 mutual
 /-- `Conforms reg ty v`: the Python value `v` is a legal resolver argument for a position of type `ty`.
